@@ -96,6 +96,12 @@ func (d *byteDir) DeliverNext() string {
 	d.Chunks++
 	d.mu.Unlock()
 	d.to.mu.Lock()
+	if d.to.closed {
+		// the reader is gone: the bytes are dropped when they arrive, not when they were
+		// written (so the outcome does not depend on whether Write or the peer's Close ran first)
+		d.to.mu.Unlock()
+		return fmt.Sprintf("%d of %d bytes (dropped: reader closed)", size, n)
+	}
 	d.to.avail = append(d.to.avail, chunk...)
 	d.to.signal()
 	d.to.mu.Unlock()
@@ -188,9 +194,6 @@ func (c *Conn) Close() error {
 		c.out.eof = true
 	}
 	c.out.mu.Unlock()
-	c.peer.out.mu.Lock()
-	c.peer.out.buf, c.peer.out.dead = nil, true
-	c.peer.out.mu.Unlock()
 	return nil
 }
 
